@@ -120,7 +120,7 @@ def run(tier):
                 "steps": [{"op": "create", "h": 1, "wb": j["wb"], "default_seed": True},
                           {"op": "qtable", "h": 1, "dim": cfg["dim"], "props": [[1, 0, 0], [5, 0, 0], [4, 0, 0]] + [[2, q, 0] for q in range(nc)],
                            # ASCII files hold six significant digits (the positions of these Cartesian grids are exact in six digits)
-                           "checks": [({"k": "tol", "at": q, "col": off + q, "rel": 2e-6, "abs": 1e-9} if ascii_ else {"k": "eq", "at": q, "col": off + q}) for q in range(5 + nc)], "rows": rows}]}))
+                           "checks": [({"k": "tol", "at": q, "col": off + q, "rel": 1e-5, "abs": 1e-9} if ascii_ else {"k": "eq", "at": q, "col": off + q}) for q in range(5 + nc)], "rows": rows}]}))
             # filtered outputs: which source cells were kept, node values unchanged
             wbdoc = terms.normalise(j["wb"])
             for f in sorted(glob.glob(os.path.join(d, "w.*.vtu"))):
